@@ -224,7 +224,8 @@ def _render(m, o):
 def _reparse(m, o):
     x = m.regs[o['r']]
     C = cls_of(m, o.get('cls', 'S'))
-    return {'cls': o.get('cls', 'S')}, (lambda: C(str(x))), 'obj', {}
+    opt = o.get('opt', True)      # opt=False: the non-optimised rendering is parsed (another way to reach a value)
+    return {'cls': o.get('cls', 'S'), 'opt': b(opt)}, (lambda: C(str(x) if opt else x.to_str(optimize=False))), 'obj', {}
 
 
 @op('simplify')
